@@ -649,6 +649,9 @@ func reportDebug(o options, mode string, r *FuncResult, obre *regexp.Regexp) {
 			mark = "ok  "
 		}
 		fmt.Printf("   %s %-8s %5.2fs %-14s %s   // %s (%s:%d)\n", mark, s.Status, s.TimeS, s.Solver, ob.Name, truncate(ob.Text, 70), shortFile(ob.Pos.Filename), ob.Pos.Line)
+		if mark == "FAIL" {
+			fmt.Printf("        tried: %v\n", s.Tried)
+		}
 		if mark == "FAIL" && s.Model != nil {
 			for _, k := range sortedKeys(s.Model) {
 				fmt.Printf("        %s = %s\n", k, s.Model[k])
